@@ -186,13 +186,23 @@ pub fn gen_case(rng: &mut Rng, c02: bool, thorough: bool) -> CrashCase {
       big_every,
       burst: if many { if c02 { 40 + rng.below(40) as u32 } else { 100 + rng.below(80) as u32 } } else { 0 },
       savepoints: rng.chance(1, 3),
+      purge: !many && rng.chance(1, 8),
     };
     let mut ops = gen_ops(rng, &cfg, &p);
     if s > 0 && rng.chance(1, 2) {
       // a session on a disk a crash left behind often starts by cleaning up:
       // this makes the next manifest shorter than what an interrupted commit
       // may have left in its temp file
-      let head: Vec<Op> = match rng.below(3) {
+      let head: Vec<Op> = match rng.below(4) {
+        // a partial rollback right after recovery (the log may just have been
+        // repaired), then something that must survive the next restart
+        3 => vec![
+          Op::NewWriter { h: 0 },
+          Op::Savepoint { h: 0 },
+          Op::Add { h: 0, id: "d0".into(), ver: 900 },
+          Op::RollbackTo { h: 0 },
+          Op::Add { h: 0, id: "d1".into(), ver: 901 },
+        ],
         0 => vec![Op::Compact],
         1 => vec![Op::NewWriter { h: 0 }, Op::Rollback { h: 0 }, Op::Delete { h: 0, id: "d0".into() }, Op::Commit { h: 0 }],
         _ => vec![Op::NewWriter { h: 0 }, Op::Rollback { h: 0 }, Op::DropWriter { h: 0 }, Op::Compact],
